@@ -58,6 +58,26 @@ def gen_identity(seed, big):
     return out
 
 
+def gen_identity_unwrappable(seed, big):
+    """C04: a ready unwrap-block that cannot be unwrapped (fewer than two lines between the tags, or on one line) is left
+    completely untouched - also the whitespace around it"""
+    out = []
+    pres = ['a\n\n', 'a\n  \n', '\n\n', 'a\n \n \n', '  a\n\n\n', 'a\n']
+    posts = ['\nb\n', 'b\n', '\n\nb\n', '  \n b\n', '']
+    bodies = ['', 'one\n', '  one  \n']
+    for pre in pres:
+        for post in posts:
+            for body in bodies:
+                for ind in ('', '  '):
+                    src = pre + ind + f"<{RM} name='f1' unwrap-block>\n" + body + ind + f"</{RM}>\n" + post
+                    out.append((dict(cfg(), mode='clean', source=src, ds='<', de='>'),
+                                (lambda s_: lambda r: None if r.get('ok') and r.get('output') == s_ else 'un-unwrappable ready unwrap-block: output differs from input: ' + json.dumps(r, ensure_ascii=False)[:200])(src)))
+            src = pre + f"<{TL} to='{PAST}' unwrap-block>x</{TL}>\n" + post
+            out.append((dict(cfg(), mode='clean', source=src, ds='<', de='>'),
+                        (lambda s_: lambda r: None if r.get('ok') and r.get('output') == s_ else 'single-line unwrap-block: output differs from input: ' + json.dumps(r, ensure_ascii=False)[:200])(src)))
+    return out
+
+
 def check_partition(src, ds, de):
     def oracle(r):
         if not r.get('ok'):
@@ -397,7 +417,7 @@ def gen_blanklines(seed, big):
 
 
 GENERATORS = {
-    'C01': [gen_totality], 'C04': [gen_identity], 'C07': [gen_partition], 'C05': [gen_expiry], 'C06': [gen_marker],
+    'C01': [gen_totality], 'C04': [gen_identity, gen_identity_unwrappable], 'C07': [gen_partition], 'C05': [gen_expiry], 'C06': [gen_marker],
     'C09': [gen_grammar], 'C02': [gen_blocks, gen_inline], 'C03': [gen_blocks, gen_inline], 'C11': [gen_blocks], 'C17': [gen_list_all],
     'C12': [gen_dedent], 'C13': [gen_blanklines], 'C14': [gen_inline],
 }
